@@ -286,6 +286,20 @@ def sp_engineered(tier):
                     if 0 < d < q:
                         out.append(item('ref', 'bignSign', B.c_sign(l, oid, H, d, B.enc(l, k)), 'engineered (s0+2^l)d = %s - r, hash %s' % (tn, hn)))
                         out.append(item('ref', 'bignIdSign', B.c_idsign(l, oid, B.h0_alphabet(l)[0][1], H, d, B.enc(l, k)), 'engineered (s0+2^l)e = %s - r, hash %s' % (tn, hn), dict(need_tp=1)))
+                # a PARTIAL REMAINDER of the long division of (s0 + 2^l) d by q with an all-ones leading word: floor((s0 + 2^l) d / B^j) mod q in
+                # [2^2l - 2^(2l - 64), q) -- quotient-digit estimate and borrow both B - 1, the boundary of the corrective addition of zzMod
+                # (probability 2^-64 per step for a filler key); B = 2^64 and 2^32 (both word sizes)
+                for wb in (64, 32):
+                    for j in (1, 2):
+                        if wb * j >= l + wb:
+                            continue
+                        km = s0 + 2 ** l; Bj = 1 << (wb * j)
+                        delta = 2 ** (2 * l - wb) - (2 ** (2 * l) - q)
+                        s1 = max(1, km // (2 * Bj)) - 1
+                        d = -(-(Bj * (s1 * q + q - delta // 2)) // km)
+                        if 0 < d < q and q - delta <= (km * d // Bj) % q < q:
+                            out.append(item('ref', 'bignSign', B.c_sign(l, oid, H, d, B.enc(l, k)), 'engineered partial remainder of (s0+2^l)d / q with all-ones leading %d-bit word at position %d, hash %s' % (wb, j, hn)))
+                            out.append(item('ref', 'bignIdSign', B.c_idsign(l, oid, B.h0_alphabet(l)[0][1], H, d, B.enc(l, k)), 'engineered partial remainder of (s0+2^l)e / q with all-ones leading %d-bit word at position %d, hash %s' % (wb, j, hn), dict(need_tp=1)))
     return out
 
 def sp_idsign(tier):
